@@ -320,15 +320,27 @@ def wrapper_offset_rule(ctx, r):
             if wparam not in h.params and any(isinstance(x, ast.Name) and x.id == wparam and isinstance(
                     x.ctx, ast.Load) for x in ast.walk(h.node)):
                 tainted_funcs.add(h.name)
-        # flow-insensitive but kill-aware taint over the loops that yield
+        # flow-insensitive but kill-aware taint over the loops that yield; one instance per (format, codec, yield):
+        # a loop serves a codec when the guard facts at the loop do not exclude it
+        import re as _re
+        cg = ctx.cfg(g)
+        fg = ctx.facts(g)
+        sites = []
         for loop in [x for x in walk_body_shallow(g.body) if isinstance(x, ast.For)]:
+            if "_decode_message_set_iter" not in unparse(loop.iter):
+                continue
+            ln = [n for n in cg.nodes if n.kind == "for" and n.stmt is loop]
+            f_at = fg[ln[0].id] if ln else frozenset()
+            for codec in ("CODEC_GZIP", "CODEC_SNAPPY"):
+                excluded = any(_re.match(r"^\w+ == %s$" % codec, t) and not pol for t, pol in f_at) or any(
+                    _re.match(r"^\w+ == CODEC_\w+$", t) and pol and not t.endswith(" == " + codec) for t, pol in f_at)
+                if not excluded:
+                    sites.append((loop, codec[6:].lower()))
+        for loop, codec in sites:
             it = loop.iter
             iter_t = any(isinstance(x, ast.Name) and (x.id in tainted_funcs) for x in ast.walk(it)) or any(
                 isinstance(x, ast.Name) and x.id == wparam for x in ast.walk(it))
             targets = names_in(loop.target)
-            inner_iter = "_decode_message_set_iter" in unparse(it)
-            if not inner_iter:
-                continue
             for y in [x for s in loop.body for x in walk_shallow(s) if isinstance(x, ast.Yield)]:
                 if not isinstance(y.value, ast.Tuple) or not y.value.elts:
                     continue
@@ -337,7 +349,6 @@ def wrapper_offset_rule(ctx, r):
                 dep_wrapper = (bool(fn & {wparam}) and wparam not in targets) or (bool(fn & targets) and iter_t)
                 dep_inner = bool(fn & targets)
                 key = "%s#yield(%s) in for %s" % (g.qname, norm(first), norm(loop.target))
-                codec = "gzip" if "gz" in unparse(it) else ("snappy" if "sn" in unparse(it) else "?")
                 if mag == 0:
                     r.check(dep_inner and not dep_wrapper, key + " [magic0 %s]" % codec,
                             "format 0 wrapper must yield the inner (absolute) offsets unchanged", where(g, y),
